@@ -39,7 +39,7 @@ pub fn gen_values(env: &Env, d: &D, s: &mut Src, mode: Mode, n_member: usize, n_
     for _ in 0..n_arb {
         out.push((arbitrary(s, 2), "arbitrary".into()));
     }
-    out
+    out.into_iter().map(|(v, l)| (crate::jsval::canon(v), l)).collect()
 }
 
 pub fn gen_typed_case(s: &mut Src, cfg: &GenCfg, rcfg: RenderCfg, mode: Mode, max_roots: usize, vals: (usize, usize, usize)) -> TypedCase {
